@@ -412,6 +412,8 @@ _c13_prev = EXTRA_CHECKS.get("C13")
 EXTRA_CHECKS["C13"] = (lambda tier="quick", seed=0: (_c13_prev(tier, seed) if _c13_prev else []) + _c13(tier, seed))
 _c20_prev2 = EXTRA_CHECKS.get("C20") or _c20
 EXTRA_CHECKS["C20"] = (lambda tier="quick", seed=0: _c20_prev2(tier, seed) + _c13(tier, seed))
+_c11_prev = EXTRA_CHECKS.get("C11")
+EXTRA_CHECKS["C11"] = (lambda tier="quick", seed=0: (_c11_prev(tier, seed) if _c11_prev else []) + _c13(tier, seed))  # the reported fraction covered is capacity / number eligible: the count is accumulated in a copy
 EXTRA_CHECKS["C10"] = _c10
 EXTRA_CHECKS["C01"] = _with_order(EXTRA_CHECKS.get("C01"))
 EXTRA_CHECKS["C06"] = _with_order(EXTRA_CHECKS.get("C06"))
@@ -1099,3 +1101,68 @@ def _c16_rows(tier="quick", seed=0):
 
 _c16_before_rows = EXTRA_CHECKS["C16"]
 EXTRA_CHECKS["C16"] = (lambda tier="quick", seed=0: _c16_before_rows(tier, seed) + _c16_rows(tier, seed))
+
+
+# ---- C19 "the listed mathematical functions": the whitelist table of function_parser names exactly the documented functions and binds each name to the function it says
+# (a name bound to another function -- floor to trunc -- makes accepted strings evaluate to something else than ordinary arithmetic; an extra name widens what strings can call)
+_C19_TABLE = {"max": "vector_max", "min": "vector_min", "exp": "np.exp", "floor": "np.floor", "SRC_POP_AVG": "None", "TGT_POP_AVG": "None", "SRC_POP_SUM": "None", "TGT_POP_SUM": "None", "STITCH_AVG": "None",
+              "STITCH_SUM": "None", "pi": "np.pi", "cos": "np.cos", "sin": "np.sin", "sqrt": "np.sqrt", "ln": "np.log", "rand": "np.random.rand", "randn": "np.random.randn", "sdiv": "sdiv"}
+
+
+def _replay_listed_functions():
+    """replay on the REAL parse_function: every listed function of one argument is evaluated on scalars and arrays of both signs and compared with the math module"""
+    import math
+
+    import numpy as np
+
+    import atomica.function_parser as fp
+
+    ref = {"exp": math.exp, "floor": math.floor, "cos": math.cos, "sin": math.sin, "sqrt": math.sqrt, "ln": math.log}
+    bad = []
+    for name, f in ref.items():
+        xs = [-2.5, -1.0, -0.25, 0.0, 0.75, 1.0, 3.5] if name not in ("sqrt", "ln") else [0.25, 1.0, 3.5]
+        fn = fp.parse_function("%s(x)" % name)[0]
+        for x in xs:
+            got, want = float(fn(x=x)), float(f(x))
+            if not (abs(got - want) <= 1e-12 * max(1.0, abs(want))):
+                bad.append("%s(%r) evaluates to %r, ordinary arithmetic gives %r" % (name, x, got, want))
+        arr = np.asarray(fn(x=np.array(xs)), dtype=float)
+        if not np.allclose(arr, [f(x) for x in xs], rtol=1e-12, atol=1e-12):
+            bad.append("%s on the array %r evaluates to %r" % (name, xs, arr.tolist()))
+    for src, env, want in (("max(x,y)", dict(x=-3.0, y=-1.0), -1.0), ("min(x,y,z)", dict(x=2.0, y=-1.0, z=5.0), -1.0), ("pi", {}, math.pi)):
+        got = float(fp.parse_function(src)[0](**env))
+        if got != want:
+            bad.append("%s with %r evaluates to %r, expected %r" % (src, env, got, want))
+    return dict(verdict="violates" if bad else "holds", detail="; ".join(bad[:3]) or "every listed function evaluates like ordinary arithmetic on the sample points", prestate=dict(sample_points="scalars and arrays of both signs"))
+
+
+def _c19_table(tier="quick", seed=0):
+    import ast
+
+    from pyvc import source
+
+    m = source.load("function_parser")
+    node = None
+    for st in m.tree.body:
+        if isinstance(st, ast.Assign) and len(st.targets) == 1 and isinstance(st.targets[0], ast.Name) and st.targets[0].id == "supported_functions" and isinstance(st.value, ast.Dict):
+            node = st
+    out = []
+    if node is None:
+        return [flow._ob("function_parser:supported_functions", "whitelist-table-found", False, note="the module no longer assigns a dict display to supported_functions")]
+    got = {k.value: ast.unparse(v) for k, v in zip(node.value.keys, node.value.values) if isinstance(k, ast.Constant)}
+    out.append(flow._ob("function_parser:supported_functions", "whitelist-names-exactly-the-listed-functions", set(got) == set(_C19_TABLE) and len(node.value.keys) == len(_C19_TABLE), node.lineno,
+                        "listed: %s" % ", ".join(sorted(got)) if set(got) == set(_C19_TABLE) else "names only in the table: %s; names missing from it: %s" % (sorted(set(got) - set(_C19_TABLE)), sorted(set(_C19_TABLE) - set(got)))))
+    for name in sorted(_C19_TABLE):
+        if name in got:
+            out.append(flow._ob("function_parser:supported_functions", "listed-name-is-bound-to-its-function:%s" % name, got[name] == _C19_TABLE[name], node.lineno,
+                                "`%s` is bound to `%s`%s" % (name, got[name], "" if got[name] == _C19_TABLE[name] else " -- the function of that name is `%s`" % _C19_TABLE[name])))
+    # the table is not rebound or extended elsewhere in the module
+    later = [n for n in ast.walk(m.tree) if isinstance(n, (ast.Assign, ast.AugAssign)) and n is not node and any(isinstance(x, ast.Name) and x.id == "supported_functions" and isinstance(x.ctx, ast.Store) or
+                                                                                                                  (isinstance(x, ast.Subscript) and isinstance(x.value, ast.Name) and x.value.id == "supported_functions" and isinstance(x.ctx, ast.Store))
+                                                                                                                  for t in (n.targets if isinstance(n, ast.Assign) else [n.target]) for x in ast.walk(t))]
+    out.append(flow._ob("function_parser:supported_functions", "whitelist-is-not-extended-elsewhere", not later, later[0].lineno if later else node.lineno, "no other statement of the module assigns to the table or to one of its entries"))
+    return _attach(out, "listed-name-is-bound", _replay_listed_functions)
+
+
+_c19_prev = EXTRA_CHECKS.get("C19")
+EXTRA_CHECKS["C19"] = (lambda tier="quick", seed=0: (_c19_prev(tier, seed) if _c19_prev else []) + _c19_table(tier, seed))
